@@ -1049,6 +1049,7 @@ func checkValidateAfterDecode(c *core.Ctx) error {
 		return nil
 	}
 	checkRequiredMasks(c, exp)
+	checkParamValidation(c, r, exp)
 	for _, fx := range exp.Fixtures {
 		pkg := exp.Prog.ByPath[fx.PkgPath]
 		if pkg == nil {
@@ -1371,4 +1372,73 @@ func astRecvName(e ast.Expr) string {
 		return astRecvName(x.X)
 	}
 	return "?"
+}
+
+// checkParamValidation (R03.3, parameters): in decode<Op>Params every parameter is handled by one top-level
+// immediately-invoked closure; if the params field it fills has a type that can be validated, that closure must
+// contain a validation call (X.Validate(), validate.T{…}.Validate*(…), validate.UniqueItems).
+func checkParamValidation(c *core.Ctx, r *core.Rule, exp *core.Expansion) {
+	for _, fx := range exp.Fixtures {
+		p := exp.Prog.PkgBy[fx.PkgPath]
+		if p == nil {
+			continue
+		}
+		for _, f := range p.Syntax {
+			for _, d := range f.Decls {
+				fd, ok := d.(*ast.FuncDecl)
+				if !ok || fd.Body == nil || fd.Recv != nil || !strings.HasPrefix(fd.Name.Name, "decode") || !strings.HasSuffix(fd.Name.Name, "Params") {
+					continue
+				}
+				for _, st := range fd.Body.List {
+					ifs, ok := st.(*ast.IfStmt)
+					if !ok || ifs.Init == nil {
+						continue
+					}
+					as, ok := ifs.Init.(*ast.AssignStmt)
+					if !ok || len(as.Rhs) != 1 {
+						continue
+					}
+					call, ok := as.Rhs[0].(*ast.CallExpr)
+					if !ok {
+						continue
+					}
+					lit, ok := call.Fun.(*ast.FuncLit)
+					if !ok {
+						continue
+					}
+					// params fields written in this closure
+					fields := map[string]types.Type{}
+					validates := false
+					ast.Inspect(lit.Body, func(n ast.Node) bool {
+						switch x := n.(type) {
+						case *ast.SelectorExpr:
+							if id, ok := x.X.(*ast.Ident); ok && id.Name == "params" {
+								if t := p.TypesInfo.TypeOf(x); t != nil {
+									fields[x.Sel.Name] = t
+								}
+							}
+						case *ast.CallExpr:
+							if sel, ok := x.Fun.(*ast.SelectorExpr); ok {
+								if strings.HasPrefix(sel.Sel.Name, "Validate") || sel.Sel.Name == "UniqueItems" {
+									validates = true
+								}
+							}
+						}
+						return true
+					})
+					for name, t := range fields {
+						if !validatable(t, 0) {
+							continue
+						}
+						key := fmt.Sprintf("%s/%s:%s", fx.Name, fd.Name.Name, name)
+						if validates {
+							r.Pass(fmt.Sprintf("%s: parameter of type %s validated inside its decoding step", key, types.TypeString(t, func(*types.Package) string { return "" })))
+						} else {
+							r.Fail("param-novalidate:"+key, c.Pos(ifs.Pos()), fmt.Sprintf("%s decodes params.%s (%s, which has a Validate method) without validating it: a parameter violating its schema reaches the handler", fd.Name.Name, name, types.TypeString(t, func(*types.Package) string { return "" })))
+						}
+					}
+				}
+			}
+		}
+	}
 }
